@@ -56,6 +56,7 @@ func abiConfigs(tier string) []abiCfg {
 		if c == 3 && tier == "thorough" {
 			sets = append(sets, 2)
 		}
+		sets = append(sets, c+1) // more sets than cells: the surplus is never used, but it fixes the stride of the buffer
 		for _, p := range sets {
 			for _, i := range sets {
 				for _, T := range Ts {
